@@ -52,6 +52,14 @@ class Num:
     def __rmul__(self, o): return Num(Num.val(o) * self.v)
     def __floordiv__(self, o): return Num(self.v // Num.val(o))
     def __mod__(self, o): return Num(self.v % Num.val(o))
+    def __and__(self, o): return Num(self.v & Num.val(o))
+    def __rand__(self, o): return Num(Num.val(o) & self.v)
+    def __or__(self, o): return Num(self.v | Num.val(o))
+    def __ror__(self, o): return Num(Num.val(o) | self.v)
+    def __xor__(self, o): return Num(self.v ^ Num.val(o))
+    def __lshift__(self, o): return Num(self.v << Num.val(o))
+    def __rshift__(self, o): return Num(self.v >> Num.val(o))
+    def __neg__(self): return Num(-self.v)
     def __eq__(self, o): return self.v == Num.val(o)
     def __ne__(self, o): return self.v != Num.val(o)
     def __lt__(self, o): return self.v < Num.val(o)
@@ -153,7 +161,7 @@ def _witness(data, ident):
 
 def step(init0: int, id0: int, now: int, who: int, prev: int) -> bool:
     """
-    pre: 0 <= init0 <= now < 2**32 and 0 <= id0 < 2**32 - 1
+    pre: 0 <= init0 <= now < 2**32 and P.get("idlo", 0) <= id0 < P.get("idhi", 2**32 - 1)
     pre: 0 <= who <= 2 and 0 <= prev <= 2
     post: _
     """
@@ -170,7 +178,7 @@ def step(init0: int, id0: int, now: int, who: int, prev: int) -> bool:
     if w is None:
         return False
     high, low = w
-    form = 0 <= high < 2 ** 32 and 0 <= low < 2 ** 32
+    form = 0 <= high < 2 ** 32 and (0 <= low < 2 ** 32 or P.get("idlo", 0) >= 2 ** 32 - 1)
     fresh = high > init0 or (high == init0 and low > id0)
     init1, id1 = Num.val(SessionHandler.init), Num.val(SessionHandler.id)
     inv = (high < init1) or (high == init1 and low <= id1)
@@ -226,6 +234,10 @@ def queries(tier, seed):
     for kind in ("avp", "acct", "update", "typed"):
         qs.append(Q(f"step/{kind}", "step", {"kind": kind}, cto=t, pto=t,
                     what=f"inductive step over all 32-bit (init, id, now); identity and previous identity by symbolic choice; kind {kind}"))
+    for kind in (("avp", "update") if tier == "quick" else ("avp", "acct", "update", "typed")):
+        qs.append(Q(f"step_big/{kind}", "step", {"kind": kind, "idlo": 2 ** 32 - 1, "idhi": 2 ** 40}, cto=t, pto=t,
+                    what=f"same step with the counter already beyond 32 bits (2^32-1 <= id < 2^40): uniqueness only, the 32-bit "
+                         f"form of the low field is not asserted there; kind {kind}"))
     seqs = [["update", "update"], ["avp", "update", "avp"]] if tier == "quick" else \
         [["update", "update"], ["avp", "update", "avp"], ["update", "avp", "update", "acct"], ["typed", "update", "update"],
          ["acct", "acct", "update", "avp"]]
@@ -241,6 +253,6 @@ def queries(tier, seed):
 
 BOUNDS = ["(init, id, now): all 32-bit values with init <= now; identities from a 3-element alphabet by symbolic choice",
           "sequences of 2-4 generations within one clock second"]
-OUTSIDE = ["identity strings containing ';' (ambiguous by construction)", "clock going backwards", "id counter beyond 2^32-1 "
-           "(4 billion generations in one process)"]
+OUTSIDE = ["identity strings containing ';' (ambiguous by construction)", "clock going backwards", "the 32-bit width of the low field once "
+           "the counter passed 2^32 generations (uniqueness is still checked up to 2^40)"]
 ASSUMPTIONS = ["datetime.utcnow stub: arbitrary non-decreasing instants", "decimal rendering of the counters is opaque (class Num: str()/format() yield a token that records value and format spec); Python's str(int) is trusted to be canonical and injective", "ghost invariant: all issued (high, low) pairs are <= (init, id) lexicographically"]
